@@ -240,7 +240,9 @@ func C15(r *core.Run) {
 		out := c15Out{Exits: map[string]int{}, TouchedSets: map[string]bool{}}
 		sb := filepath.Join(in.Dir, fmt.Sprint("o", shard))
 		idx := 0
-		for _, names := range [][2]string{{"crs[1]", "crs1"}, {"c?s", "crs"}, {"cr*", "crsx"}, {"a[b-c]d", "abd"}, {`c\rs`, "crs"}, {"{crs}", "crs"}} {
+		for _, names := range [][2]string{{"crs[1]", "crs1"}, {"c?s", "crs"}, {"cr*", "crsx"}, {"a[b-c]d", "abd"}, {`c\rs`, "crs"}, {"{crs}", "crs"},
+			// a complete tree nested below another complete tree: the nearest root is the resolved one
+			{"outer/plugins/inner", "outer"}, {"outer/tests/fixture", "outer"}} {
 			for _, cmd := range c15Commands() {
 				if cmd.Inspect || strings.Contains(cmd.Name, "missing") {
 					continue
